@@ -159,6 +159,45 @@ def run_case(ctx, rng, ci):
             ctx.violation("row-or-dimension-order-matters|%s" % cmd[1], "verif <files> %s -type csv differs after permuting rows/columns/"
                           "dimension entries inside the files:\n%s\nvs\n%s" % (" ".join(cmd), "\n".join(la)[-500:], "\n".join(lb)[-500:]), case)
     ctx.case("%d|%s|perm-inside|%s" % (F, fmts, kind), nonid)
+    # (b2) a text file converted with text2nc: the NetCDF copy carries every field at the same (time, lead time, location id)
+    tj = [j for j, i in enumerate(ds["inputs"]) if i["fmt"] == "text" and "obs" in i["has"]]
+    if tj and ci % 3 == 0:
+        import subprocess
+        from vmon import common
+        j = tj[0]
+        conv = os.path.join(base, "conv%d.nc" % j)
+        r = subprocess.run([common.PY, os.path.join(common.REPO, "scripts", "text2nc.py"), pb[j], conv], stdout=subprocess.PIPE,
+                           stderr=subprocess.PIPE, text=True, env=common.worker_env(), timeout=300)
+        ctx.count("text2nc_conversions")
+        if r.returncode == 0 and os.path.exists(conv):
+            cmds = [["-m", "mae", "-x", "location"], ["-m", "obs", "-x", "location"]]
+            inp_j = ds["inputs"][j]
+            if inp_j["thresholds"]:
+                cmds.append(["-m", "bs", "-r", gen.fnum(inp_j["thresholds"][0]), "-x", "location"])
+            if inp_j["quantiles"]:
+                cmds.append(["-m", "quantilescore", "-q", gen.fnum(inp_j["quantiles"][-1]), "-x", "location"])
+            if inp_j["members"]:
+                cmds.append(["-m", "bs", "-r", "6.5", "-x", "location"])
+            for cmd in cmds:
+                o1 = runner.run_cli([pb[j]] + cmd + ["-type", "csv"])
+                o2 = runner.run_cli([conv] + cmd + ["-type", "csv"])
+                ctx.count("permutation_pairs")
+                if o1.status != "ok" or o2.status != "ok":
+                    continue
+                h1, r1 = runner.parse_csv(o1.stdout)
+                h2, r2 = runner.parse_csv(o2.stdout)
+                v1 = {r_[0]: r_[-1] for r_ in r1}
+                v2 = {r_[0]: r_[-1] for r_ in r2}
+
+                def close(x, y):
+                    try:
+                        fx, fy = float(x), float(y)
+                    except ValueError:
+                        return x == y
+                    return (fx != fx and fy != fy) or abs(fx - fy) <= 1e-5 * max(abs(fx), abs(fy), 1e-9) + 1e-7
+                if set(v1) != set(v2) or any(not close(v1[k_], v2[k_]) for k_ in v1):
+                    ctx.violation("text2nc-copy-differs|%s" % cmd[1], "verif %s: per-location scores of a text file %s and of its text2nc "
+                                  "copy %s differ" % (" ".join(cmd), sorted(v1.items())[:6], sorted(v2.items())[:6]), case)
     # (c) file order
     cmd = rng.choice(COMMANDS[:4] + commands[7:])
     ref_cols = None
